@@ -16,6 +16,19 @@ A_REFLECT = ("repeat(REFLECT)/MOD: size <= 2^30-1 (2*size is an int) and c > INT
              "coordinate +- a kernel width and an image dimension")
 
 
+def normal_loops(cong):
+    c1 = " && ((long long) __CPROVER_loop_entry(*c) - (long long) *c) % (long long) size == 0" if cong else ""
+    l1 = {"assigns": "*c", "decreases": "*c",
+          "invariants": "*c <= __CPROVER_loop_entry(*c) && (__CPROVER_loop_entry(*c) >= 0 ==> *c >= 0) && "
+                        "(__CPROVER_loop_entry(*c) < size ==> *c == __CPROVER_loop_entry(*c))" + c1,
+          "vars": ["c", "size"], "headers": []}
+    l2 = {"assigns": "*c", "decreases": "-(long long) *c",
+          "invariants": "*c >= __CPROVER_loop_entry(*c) && (__CPROVER_loop_entry(*c) < 0 ==> *c < size) && "
+                        "(__CPROVER_loop_entry(*c) >= 0 ==> *c == __CPROVER_loop_entry(*c))" + c1,
+          "vars": ["c", "size"], "headers": []}
+    return {"repeat": [l1, l2]}
+
+
 def jobs(tier):
     th = tier != "quick"
     js = []
@@ -35,6 +48,14 @@ def jobs(tier):
     js.append(Job("repeat.normal.k4", "C08/repeat.c", defines={"VC_MODE": 1, "VC_K": 4}, unwind=7, cbmc_flags=ARITH, kind="bounded",
                   bound="|c| <= 4*size (the two while loops unwound 6 times)", functions=["repeat"],
                   domain="every size >= 1, c in [-4*size, 4*size]", timeout=600, min_props=3))
+    js.append(Job("repeat.normal.range_termination", "C08/repeat_d.c", route="D", enforce="repeat", defines={"VC_CONG": 0},
+                  loops=normal_loops(0), kind="proof", functions=["repeat"],
+                  domain="every int c, every size >= 1 (loop contracts, no unwinding): TRUE, 0 <= r < size, both loops terminate",
+                  timeout=300, min_props=10))
+    js.append(Job("repeat.normal.congruent", "C08/repeat_d.c", route="D", enforce="repeat", defines={"VC_CONG": 1},
+                  loops=normal_loops(1), kind="proof", functions=["repeat"],
+                  domain="every int c, every size >= 1 (loop contracts, no unwinding): r == c (mod size)",
+                  timeout=900, min_props=10))
     return js
 
 
